@@ -5,7 +5,8 @@ import json, os, sys, glob
 sys.path.insert(0, os.path.dirname(os.path.abspath(__file__)))
 import seedprompt
 pid = sys.argv[1]
-base = seedprompt.prompt(pid).replace('/tmp/seed-%s' % pid.lower(), '/tmp/seed2-%s' % pid.lower())
+rnd = sys.argv[2] if len(sys.argv) > 2 else '2'
+base = seedprompt.prompt(pid).replace('/tmp/seed-%s' % pid.lower(), '/tmp/seed%s-%s' % (rnd, pid.lower()))
 prev = []
 for d in sorted(glob.glob('/verif/seeded/%s-*/meta.json' % pid)):
     prev.append('- ' + json.load(open(d)).get('summary', '')[:400])
